@@ -222,17 +222,36 @@ func runC17(env *Env, tier string) {
 		}
 	}
 	images := 0
+	tornFile := ""
+	phase := ""
 	judge := func(img map[string][]byte, what string) {
 		images++
 		nfs := simos.FromImage(img, dirs)
 		simos.SetCurrent(nfs)
-		c17Judge(env, open, before, after, lastOp.kind, lastOp.inflightN, lastOp.inflight, what, ch)
+		c17Judge(env, open, before, after, lastOp.kind, lastOp.inflightN, lastOp.inflight, what, ch, tornFile, lastOp.kind+"/"+phase)
 	}
 	for _, pt := range points {
 		if env.Failed() {
 			break
 		}
 		what := fmt.Sprintf("process crash before disk op %d of %d", pt.k-k0, k1-k0)
+		tornFile = ""
+		if pt.k < k1 && pt.cut > 0 {
+			tornFile = ops[pt.k].Path
+		}
+		// phase of the crash point inside the interrupted operation, for fingerprints
+		phase = "complete"
+		if pt.k < k1 {
+			if pt.cut > 0 {
+				phase = "inside-" + ops[pt.k].Kind.String() + "." + shortPath(ops[pt.k].Path)
+			} else {
+				prev := "start"
+				if pt.k > k0 {
+					prev = ops[pt.k-1].Kind.String() + "." + shortPath(ops[pt.k-1].Path)
+				}
+				phase = "after-" + prev + "-before-" + ops[pt.k].Kind.String() + "." + shortPath(ops[pt.k].Path)
+			}
+		}
 		if pt.k < k1 {
 			what += fmt.Sprintf(" (%s %s", ops[pt.k].Kind, shortPath(ops[pt.k].Path))
 			if pt.cut > 0 {
@@ -319,24 +338,32 @@ func shortPath(p string) string {
 func isCounterFile(p string) bool { return strings.HasSuffix(p, "seqnums") }
 
 // c17Judge opens a fresh store on the current simulated disk and evaluates the statement.
-func c17Judge(env *Env, open func() (quickfix.MessageStore, error), before, after c17State, kind string, inN int, inB []byte, what string, ch *Chooser) {
+func c17Judge(env *Env, open func() (quickfix.MessageStore, error), before, after c17State, kind string, inN int, inB []byte, what string, ch *Chooser, tornFile string, phase string) {
 	fail := func(fp, format string, a ...any) {
 		env.Violate(fp, "%s: %s", what, fmt.Sprintf(format, a...))
 	}
 	st, err := open()
 	if err != nil {
-		fail("C17/file/reopen-fails", "reopening the store failed: %v", err)
+		fail("C17/file/reopen-fails/"+phase, "reopening the store failed: %v", err)
 		return
 	}
 	defer st.Close()
 	S, T := st.NextSenderMsgSeqNum(), st.NextTargetMsgSeqNum()
 	if S != before.S && S != after.S {
 		fp := "C17/file/sender-counter-neither-before-nor-after"
+		if strings.HasSuffix(tornFile, "senderseqnums") {
+			// the crash point lies inside the 19-digit in-place rewrite of this very counter
+			fp = "C17/file/counter-torn-in-place-rewrite"
+		}
 		fail(fp, "recovered NextSenderMsgSeqNum %d, before the interrupted operation %d, after it %d", S, before.S, after.S)
 		return
 	}
 	if T != before.T && T != after.T {
-		fail("C17/file/target-counter-neither-before-nor-after", "recovered NextTargetMsgSeqNum %d, before the interrupted operation %d, after it %d", T, before.T, after.T)
+		fpT := "C17/file/target-counter-neither-before-nor-after"
+		if strings.HasSuffix(tornFile, "targetseqnums") {
+			fpT = "C17/file/counter-torn-in-place-rewrite"
+		}
+		fail(fpT, "recovered NextTargetMsgSeqNum %d, before the interrupted operation %d, after it %d", T, before.T, after.T)
 		return
 	}
 	// per-number reads: completed saves intact, the in-flight message whole or absent, nothing else
@@ -347,14 +374,35 @@ func c17Judge(env *Env, open func() (quickfix.MessageStore, error), before, afte
 			maxN = n
 		}
 	}
-	for n := 1; n <= maxN+2; n++ {
+	// numbers worth asking for: every saved one, the in-flight one, and their neighbours
+	cand := map[int]bool{1: true, 2: true}
+	for n := range before.msgs {
+		cand[n], cand[n+1] = true, true
+		if n > 1 {
+			cand[n-1] = true
+		}
+	}
+	if inB != nil {
+		cand[inN], cand[inN+1] = true, true
+	}
+	var cands []int
+	for n := range cand {
+		cands = append(cands, n)
+	}
+	sort.Ints(cands)
+	for _, n := range cands {
 		got, err := st.GetMessages(n, n)
 		want, completed := before.msgs[n]
+		if err != nil && n == inN && inB != nil && !completed {
+			// the in-flight message is not readable: allowed (it may be absent), never wrong bytes
+			env.Stat("probe_inflight_unreadable")
+			continue
+		}
 		if err != nil {
 			if kind == "reset" {
-				fail("C17/file/reset-crash-read-error", "GetMessages(%d,%d) fails after a crash inside Reset: %v", n, n, err)
+				fail("C17/file/reset-crash-read-error/"+phase, "GetMessages(%d,%d) fails after a crash inside Reset: %v", n, n, err)
 			} else {
-				fail("C17/file/read-error", "GetMessages(%d,%d): %v", n, n, err)
+				fail("C17/file/read-error/"+phase, "GetMessages(%d,%d): %v", n, n, err)
 			}
 			return
 		}
@@ -366,16 +414,16 @@ func c17Judge(env *Env, open func() (quickfix.MessageStore, error), before, afte
 			}
 		case completed:
 			if len(got) != 1 || !bytes.Equal(got[0], want) {
-				fail("C17/file/completed-message-lost", "message %d was saved before the interrupted operation; GetMessages returns %d results, first %q, saved %q", n, len(got), clip(first(got)), clip(want))
+				fail("C17/file/completed-message-lost/"+phase, "message %d was saved before the interrupted operation; GetMessages returns %d results, first %q, saved %q", n, len(got), clip(first(got)), clip(want))
 				return
 			}
 		case n == inN && inB != nil:
 			if len(got) > 1 || (len(got) == 1 && !bytes.Equal(got[0], inB)) {
-				fail("C17/file/torn-or-foreign-bytes", "in-flight message %d: GetMessages returns %d results, first %q; the message being saved was %q", n, len(got), clip(first(got)), clip(inB))
+				fail("C17/file/torn-or-foreign-bytes/"+phase, "in-flight message %d: GetMessages returns %d results, first %q; the message being saved was %q", n, len(got), clip(first(got)), clip(inB))
 				return
 			}
 			if len(got) == 0 && kind == "saveincr" && S == after.S && after.S != before.S {
-				fail("C17/file/counter-ahead-of-message", "recovered NextSenderMsgSeqNum %d says number %d was used, but message %d is not retrievable", S, n, n)
+				fail("C17/file/counter-ahead-of-message/"+phase, "recovered NextSenderMsgSeqNum %d says number %d was used, but message %d is not retrievable", S, n, n)
 				return
 			}
 		default:
@@ -391,7 +439,7 @@ func c17Judge(env *Env, open func() (quickfix.MessageStore, error), before, afte
 	// whole-range read agrees with the per-number reads
 	all, err := st.GetMessages(1, maxN+2)
 	if err != nil {
-		fail("C17/file/read-error", "GetMessages(1,%d): %v", maxN+2, err)
+		fail("C17/file/range-read-error/"+phase, "GetMessages(1,%d) over completed messages fails: %v", maxN+2, err)
 		return
 	}
 	var keys []int
@@ -420,14 +468,14 @@ func c17Judge(env *Env, open func() (quickfix.MessageStore, error), before, afte
 		}
 		if n != m.S {
 			if err := st.SetNextSenderMsgSeqNum(n); err != nil {
-				fail("C17/file/after-recovery", "SetNextSenderMsgSeqNum(%d): %v", n, err)
+				fail("C17/file/after-recovery/"+phase, "SetNextSenderMsgSeqNum(%d): %v", n, err)
 				return
 			}
 			m.S = n
 		}
 		b := []byte(fmt.Sprintf("after-recovery-%d-%d|", n, j))
 		if err := st.SaveMessageAndIncrNextSenderMsgSeqNum(n, b); err != nil {
-			fail("C17/file/after-recovery", "SaveMessageAndIncrNextSenderMsgSeqNum(%d) on the recovered store: %v", n, err)
+			fail("C17/file/after-recovery/"+phase, "SaveMessageAndIncrNextSenderMsgSeqNum(%d) on the recovered store: %v", n, err)
 			return
 		}
 		m.msgs[n] = b
@@ -435,12 +483,12 @@ func c17Judge(env *Env, open func() (quickfix.MessageStore, error), before, afte
 		for q := range m.msgs {
 			got, err := st.GetMessages(q, q)
 			if err != nil || len(got) != 1 || !bytes.Equal(got[0], m.msgs[q]) {
-				fail("C17/file/after-recovery", "after saving %d on the recovered store GetMessages(%d,%d) = %d results %q (err %v), want %q", n, q, q, len(got), clip(first(got)), err, clip(m.msgs[q]))
+				fail("C17/file/after-recovery/"+phase, "after saving %d on the recovered store GetMessages(%d,%d) = %d results %q (err %v), want %q", n, q, q, len(got), clip(first(got)), err, clip(m.msgs[q]))
 				return
 			}
 		}
 		if st.NextSenderMsgSeqNum() != m.S {
-			fail("C17/file/after-recovery", "NextSenderMsgSeqNum %d, model %d", st.NextSenderMsgSeqNum(), m.S)
+			fail("C17/file/after-recovery/"+phase, "NextSenderMsgSeqNum %d, model %d", st.NextSenderMsgSeqNum(), m.S)
 			return
 		}
 	}
